@@ -278,6 +278,13 @@ func (session *ServerCommandSession) handleAnnounce(requestCtx nazahttp.HttpReqM
 		return err
 	}
 
+	// 一条信令连接只对应一个pub或sub session。如果已经有了，再次ANNOUNCE会把之前的session覆盖掉，
+	// 被覆盖的session永远不会再回调 OnDelRtspPubSession，上层的流就一直被它占着
+	if session.pubSession != nil || session.subSession != nil {
+		Log.Errorf("[%s] ANNOUNCE on a connection which already has a session.", session.uniqueKey)
+		return base.ErrRtsp
+	}
+
 	session.pubSession = NewPubSession(urlCtx, session)
 	Log.Infof("[%s] link new PubSession. [%s]", session.uniqueKey, session.pubSession.UniqueKey())
 	session.pubSession.InitWithSdp(sdpCtx)
@@ -318,6 +325,12 @@ func (session *ServerCommandSession) handleDescribe(requestCtx nazahttp.HttpReqM
 	if err != nil {
 		Log.Errorf("[%s] parse presentation failed. uri=%s", session.uniqueKey, requestCtx.Uri)
 		return err
+	}
+
+	// 同上，一条信令连接只对应一个session
+	if session.pubSession != nil || session.subSession != nil {
+		Log.Errorf("[%s] DESCRIBE on a connection which already has a session.", session.uniqueKey)
+		return base.ErrRtsp
 	}
 
 	session.describeSeq = requestCtx.Headers.Get(HeaderCSeq)
